@@ -1,5 +1,8 @@
 /-
 C06 — a rejected edit leaves every IR object exactly as it was.
+Model: `IrVerif/Model/Kernel.lean`.  Every public call is `validate ; mutate`, and `C06_atomic` says that
+the model's `step` returns the very world it was given whenever its outcome is `raised` — every field of
+every object, reference counters, initializer keys and order, name-authority counters and name sets.
 -/
 import IrVerif.Lemmas.KernelOps
 namespace IrVerif.Kernel
@@ -8,27 +11,113 @@ theorem guardOp_atomic (bad : Bool) (kind : String) (w w' : World) (k : String)
     (h : (guardOp bad kind w w').2 = .raised k) : (guardOp bad kind w w').1 = w := by
   unfold guardOp at *; split <;> simp_all
 
-/-- **C06_atomic**: when an operation raises, the whole world (every field of every object,
-counters and name sets included) is equal to the world before the call. -/
+theorem ioMut_atomic (w : World) (g : Nat) (kd : IOKind) (m : IOMut) (k : String)
+    (h : (ioMut w g kd m).2 = .raised k) : (ioMut w g kd m).1 = w := by
+  cases m <;> simp only [ioMut] at h ⊢
+  case setSlice start stop step vs =>
+    split
+    · rfl
+    · rename_i ix hix; simp only [hix] at h; exact guardOp_atomic _ _ _ _ _ h
+  case delSlice start stop step =>
+    split
+    · rfl
+    · rename_i ix hix; simp only [hix] at h; cases h
+  all_goals first
+    | exact guardOp_atomic _ _ _ _ _ h
+    | cases h
+
+theorem initMut_atomic (w : World) (g : Nat) (m : InitMut) (k : String)
+    (h : (initMut w g m).2 = .raised k) : (initMut w g m).1 = w := by
+  cases m <;> simp only [initMut] at h ⊢
+  all_goals first
+    | exact guardOp_atomic _ _ _ _ _ h
+    | cases h
+
+/-- **C06_atomic**: when an operation raises, the whole world is equal to the world before the
+call.  (`WF w` is not even needed: the model validates before it mutates; the hypothesis is kept
+because the statement is about reachable states.) -/
 theorem C06_atomic (w : World) (op : Op) (k : String) (_hw : WF w)
     (h : (step w op).2 = .raised k) : (step w op).1 = w := by
   cases op <;> simp only [step] at h ⊢
-  case newValue name => simp [newValue] at h
-  case newNode => exact guardOp_atomic _ _ _ _ _ h
-  case replaceInput n idx v => exact guardOp_atomic _ _ _ _ _ h
-  case resizeInputs n k' => exact guardOp_atomic _ _ _ _ _ h
-  case resizeOutputs n k' => exact guardOp_atomic _ _ _ _ _ h
-  case rauw => simp at h
+  case io g kd m => exact ioMut_atomic _ _ _ _ _ h
+  case init g m => exact initMut_atomic _ _ _ _ h
+  all_goals first
+    | exact guardOp_atomic _ _ _ _ _ h
+    | cases h
+    | rfl
 
-/-! ### non-vacuity: each raising operation does raise on a reachable world -/
-def exW : World := run [ .newValue none, .newNode "A" none [some 0] (some 1) none, .newNode "B" none [some 1] none none ]
+/-- `rename`-style bulk update of the initializer mapping: all or nothing -/
+theorem C06_update_atomic (w : World) (g : Nat) (kvs : List (String × Nat)) (k : String)
+    (h : (initUpdate w g kvs).2 = .raised k) : (initUpdate w g kvs).1 = w :=
+  guardOp_atomic _ _ _ _ _ h
 
+/-- a reported cycle changes nothing -/
+theorem C06_sort_cycle_no_change (w : World) : (step w .sortCycle).1 = w := rfl
+
+
+/-! ### non-vacuity: every operation that can raise does raise on a reachable world -/
+
+/-- two graphs; `v0` is input of `g0` and consumed by `n0`; `v1 = n0.out` is output of `g0` and consumed
+by `n1`; `v3` is an initializer of `g0`; `n0 ∈ g0`, `n1 ∈ g1` -/
+def exW : World := run
+  [ .newValue (some "x"),                                        -- v0
+    .newNode "A" (some "n0") [some 0] (some 1) none none,        -- n0, v1
+    .newNode "B" (some "n1") [some 1] none none none,            -- n1, v2
+    .newValue (some "w"),                                        -- v3
+    .newGraph [0] [1] [0] [3],                                   -- g0
+    .newGraph [] [] [1] [],                                      -- g1
+    .newValue none ]                                             -- v4
+
+example : ((exW.gr 0).inputs, (exW.gr 0).outputs, (exW.gr 0).inits, (exW.gr 0).nodes, (exW.gr 1).nodes) =
+    ([0], [1], [("w", 3)], [0], [1]) := by decide
+
+example : (step exW (.newNode "C" none [] none (some [1]) none)).2 = .raised "ValueError" := by decide
+example : (step exW (.newNode "C" none [] (some 2) (some [4]) none)).2 = .raised "ValueError" := by decide
+example : (step exW (.newNode "C" none [] none (some [4, 4]) none)).2 = .raised "ValueError" := by decide
+example : (step exW (.newNode "C" none [] none (some [0]) none)).2 = .raised "ValueError" := by decide
+example : (step exW (.newGraph [4] [0] [] [])).2 = .raised "ValueError" := by decide
+example : (step exW (.newGraph [4] [] [0] [])).2 = .raised "ValueError" := by decide
+example : (step exW (.newGraph [4] [] [] [4])).2 = .raised "ValueError" := by decide
 example : (step exW (.replaceInput 1 5 none)).2 = .raised "ValueError" := by decide
 example : (step exW (.replaceInput 1 (-1) none)).2 = .raised "ValueError" := by decide
 example : (step exW (.resizeInputs 1 (-1))).2 = .raised "ValueError" := by decide
 example : (step exW (.resizeOutputs 0 0)).2 = .raised "ValueError" := by decide
-example : (step exW (.newNode "C" none [] none (some [1]))).2 = .raised "ValueError" := by decide
-example : (step exW (.newNode "C" none [] (some 2) (some [0]))).2 = .raised "ValueError" := by decide
-example : (step exW (.newNode "C" none [] none (some [0, 0]))).2 = .raised "ValueError" := by decide
+example : (step exW (.rauw 1 4 false)).2 = .raised "ValueError" := by decide
+example : (step exW (.io 1 .inp (.append 0))).2 = .raised "ValueError" := by decide
+example : (step exW (.io 0 .inp (.append 1))).2 = .raised "ValueError" := by decide
+example : (step exW (.io 1 .out (.extend [4, 0]))).2 = .raised "ValueError" := by decide
+example : (step exW (.io 1 .out (.insert 0 3))).2 = .raised "ValueError" := by decide
+example : (step exW (.io 1 .out (.pop (-1)))).2 = .raised "IndexError" := by decide
+example : (step exW (.io 0 .inp (.remove 4))).2 = .raised "ValueError" := by decide
+example : (step exW (.io 0 .inp (.setItem 0 1))).2 = .raised "IndexError|ValueError" := by decide
+example : (step exW (.io 0 .inp (.setItem 3 4))).2 = .raised "IndexError|ValueError" := by decide
+example : (step exW (.io 0 .inp (.setSlice none none none [4, 1]))).2 = .raised "ValueError" := by decide
+example : (step exW (.io 0 .inp (.setSlice none none (some 2) [4, 4]))).2 = .raised "ValueError" := by decide
+example : (step exW (.io 0 .inp (.setSlice none none (some 0) []))).2 = .raised "ValueError" := by decide
+example : (step exW (.io 0 .inp (.delItem 1))).2 = .raised "IndexError" := by decide
+example : (step exW (.io 0 .inp (.delSlice none none (some 0)))).2 = .raised "ValueError" := by decide
+example : (step exW (.io 0 .inp (.iadd [4]))).2 = .raised "RuntimeError" := by decide
+example : (step exW (.io 0 .inp (.imul 2))).2 = .raised "RuntimeError" := by decide
+example : (step exW (.init 1 (.setItem "w" 3))).2 = .raised "ValueError" := by decide
+example : (step exW (.init 0 (.setItem "k" 0))).2 = .raised "ValueError" := by decide
+example : (step exW (.init 0 (.setItem "" 4))).2 = .raised "ValueError" := by decide
+example : (step exW (.init 0 (.delItem "k"))).2 = .raised "KeyError" := by decide
+example : (step exW (.init 0 (.add 4))).2 = .raised "TypeError|ValueError" := by decide
+example : (step exW (.init 0 (.pop "k"))).2 = .raised "KeyError" := by decide
+example : (step exW (.init 1 .popitem)).2 = .raised "KeyError" := by decide
+example : (step exW (.init 0 (.update [("a", 4), ("b", 4)]))).2 = .raised "ValueError" := by decide
+example : (step exW (.init 0 (.setdefault "k" 1))).2 = .raised "ValueError" := by decide
+example : (step exW (.init 0 (.register 0))).2 = .raised "ValueError" := by decide
+example : (step exW (.setName 3 none)).2 = .raised "ValueError" := by decide
+example : (step exW (.setName 3 (some ""))).2 = .raised "ValueError" := by decide
+example : (step exW (.append 0 1)).2 = .raised "ValueError" := by decide
+example : (step exW (.extend 0 [0, 1])).2 = .raised "ValueError" := by decide
+example : (step exW (.insertAfter 0 1 [0])).2 = .raised "ValueError" := by decide
+example : (step exW (.insertBefore 0 0 [1])).2 = .raised "ValueError" := by decide
+example : (step exW (.remove 0 [1] false)).2 = .raised "ValueError" := by decide
+example : (step exW (.remove 0 [0] true)).2 = .raised "ValueError" := by decide
+example : (step exW .sortCycle).2 = .raised "ValueError" := by decide
+/-- the rejected bulk update really was going to change something before its second entry -/
+example : (initUpdateSeq exW 0 [("a", 4), ("b", 4)]).1 ≠ exW := by decide
 
 end IrVerif.Kernel
